@@ -56,6 +56,10 @@ def generate(seed, tier, k):
         # i.e. thousands of worker threads in the threaded Form path
         fk, dim, allow = "Field", 3, (r.choice(["quadratic", "quadratic", "full"]),)
     mesh = gen.gen_mesh(r, dim=dim, allow=allow, max_cells=6 if case == "array" else (4 if dim == 2 else 1))
+    if fk in ("Axi", "Mixed3axi") and gen.kpick(seed, "axi-nano", 3) == 0:
+        # an axisymmetric model of nanometre size described in metres: radii of 1e-9
+        mesh["a"] = [v * 1e-9 for v in mesh["a"]]
+        mesh["b"] = [v * 1e-9 for v in mesh["b"]]
     doc = {"kind": "c02", "seed": seed, "mesh": mesh, "fieldkind": fk, "case": case, "region": {}}
     uniform_ok = not mesh.get("perturb") and not mesh.get("convert")
     if uniform_ok and r.random() < 0.4:
